@@ -203,8 +203,43 @@ def run(ctx):
                     "the grammar's alphabet; random bytes. distinct = distinct texts longer than 3 characters")
     for t in (texts[0], texts[3], texts[7]):
         ctx.sample({"how": t[1], "text": t[2][:200] if isinstance(t[2], str) else list(t[2][:40])})
+    protocol_part(ctx)
     ctx.assume("parser syntax errors are counted by the harness's own ANTLR ErrorListener on the same generated parser")
     ctx.assume("an item whose body is blank is not counted as a note (the property does not say)")
+
+
+def protocol_part(ctx):
+    """(b) refusal / whitelist protocol: Index.tla BreakPage / FixPage / DbCreate(force) / DbCreateRefused /
+    DbReindexRefused / BrokenOnlyIfWhitelisted, model-checked exhaustively and replayed on real directories."""
+    from . import indexcommon as ic
+    ic.design(ctx, [("MC_IndexBreak.cfg", "2 pages, break / fix, create with and without -f, reindex, refusals")])
+
+    def cats(c):
+        return c.startswith(("refusal.", "db.", "files.", "command.failed", "agreement."))
+
+    ic.tour(ctx, [("Sim_IndexBreak.cfg", 40 if ctx.quick else 800, 10)], {"idempotence": False, "rebuild": False}, cats,
+            "C08 protocol")
+    ctx.coverage.pop("_sigs", None)
+    # the recorded finding, at the protocol level: a broken page without any parsed item is indexed as an empty page
+    env = zenv.ZEnv()
+    try:
+        zenv.set_day("2024-06-01")
+        env.write("ok.zo", "# Fine\n\n- a note\n")
+        env.write("broken.zo", "# T\n- an item before the blank line\n")
+        r = env.db_create()
+        pages = {x["page_path"] for x in env.db_notes()}
+        import sqlite3
+        idx = []
+        if env.db_path.exists():
+            con = sqlite3.connect(env.db_path)
+            idx = [row[0] for row in con.execute("SELECT path FROM page")]
+            con.close()
+        if r.ok and "broken.zo" in idx:
+            ctx.violation("db create indexed an unflagged broken page as an empty page",
+                          {"files": env.pages(), "indexed_pages": idx}, key="compile-broken-page-not-flagged-no-items")
+        ctx.add("evaluations")
+    finally:
+        env.cleanup()
 
 
 def replay(ctx, rep):
